@@ -115,6 +115,8 @@ func (in *Interp) sha256UF(b []value) array {
 }
 
 func (P *Program) registerRepoModels() {
+	// logging-only helper whose float arithmetic on the height is irrelevant to every property
+	P.reg("(*"+RepoModule+"/transports/p2p/p2psync.SyncManager).logSyncState", func(fr *frame, args []value) value { return nil })
 	P.reg("crypto/sha256.Sum256", func(fr *frame, args []value) value {
 		fr.in.path.noteAssumption("SHA-256 is an uninterpreted function (what is hashed is checked, not the hash)")
 		return fr.in.sha256UF(args[0].(sliceVal))
